@@ -41,8 +41,10 @@ def strategy(draw):
         spec["op"], spec["bw"] = "konno_and_ohmachi", 40.0
         fcs = draw(gen.center_frequencies(spec["op"], spec["bw"], 1.0 / (spec["_nfft"] * dt), 0.5 / dt, max_size=12))
     spec["fcs"] = fcs
-    azs = sorted(draw(st.lists(st.one_of(gen.floats(0, 179.999), st.sampled_from([0.0, 30.0, 45.0, 90.0, 135.0])),
-                               min_size=1, max_size=6, unique=True)))
+    azs = draw(st.lists(st.one_of(gen.floats(0, 179.999), st.sampled_from([0.0, 30.0, 45.0, 90.0, 135.0])),
+                        min_size=1, max_size=6, unique=True))
+    if draw(st.booleans()):
+        azs = sorted(azs)           # otherwise as drawn: the result lists the azimuths in the order requested
     p1, p2 = sorted([draw(st.one_of(gen.floats(0, 100), st.sampled_from([0.0, 50.0, 100.0]))) for _ in range(2)])
     a = draw(ANGLES)
     b = draw(ANGLES)
@@ -131,6 +133,18 @@ def check_case(case):
     sut(rec.orient_sensor_to, d, what="orient_sensor_to")
     if not (close(rec.ns.amplitude, ns, rtol=0, atol=3 * atol) and close(rec.ew.amplitude, ew, rtol=0, atol=3 * atol)):
         raise Violation(f"orienting {d} -> {a} -> {b} -> {d} does not restore the samples")
+
+    # the caller edits the horizontals in place between two orientations (gain correction, taper): the second orientation
+    # rotates what the recording holds *now*
+    rec2 = mk()
+    sut(rec2.orient_sensor_to, a, what="orient_sensor_to")
+    rec2.ew.amplitude *= 0.5
+    rec2.ns.amplitude[:] = rec2.ns.amplitude + 0.25 * scale
+    m_ns, m_ew = _rot(ens + 0.25 * scale, eew * 0.5, b - a)
+    sut(rec2.orient_sensor_to, b, what="orient_sensor_to")
+    if not (close(rec2.ns.amplitude, m_ns, rtol=0, atol=3 * atol) and close(rec2.ew.amplitude, m_ew, rtol=0, atol=3 * atol)):
+        raise Violation(f"sensor at {d} oriented to {a}, horizontals then edited in place (ew halved, ns shifted), oriented to {b}: the result is not the rotation "
+                        f"of the edited samples by {b - a} degrees (max error {max(np.max(np.abs(rec2.ns.amplitude - m_ns)), np.max(np.abs(rec2.ew.amplitude - m_ew))):.3g}, scale {scale:.3g})")
 
     # ---- physical scenario -----------------------------------------------
     theta, dp = case["theta"], case["d_pol"]
